@@ -483,6 +483,23 @@ C('als_func', 'vld-info', lambda g: _als_func(g, X_vld=g.uniform(-1, 2,
     heavy=True)
 
 
+def _als_func_nmax(g, n, n_max, **kw):
+    d = len(n)
+    X = g.uniform(-1, 2, size=(30, d))
+    return (X, g.normal(size=30), tt(g, n, 2), -1., 2.), dict(nswp=2,
+        n_max=n_max, **kw)
+
+
+C('als_func', 'n_max-above', lambda g: _als_func_nmax(g, [3, 3, 3], 5),
+    heavy=True)
+C('als_func', 'n_max-equal', lambda g: _als_func_nmax(g, [4, 4, 4], 4),
+    heavy=True)
+C('als_func', 'n_max-equal-one-mode', lambda g: _als_func_nmax(g, [3, 5, 3],
+    5), heavy=True)
+C('als_func', 'update_sol', lambda g: _als_func(g, lamb=0.1,
+    update_sol=True), heavy=True)
+
+
 def _anova(g, order=1, **kw):
     n = [3, 4, 3]
     I = covering_idx(g, n, 30)
